@@ -662,3 +662,16 @@ val run_module :
 val py_object : lit -> pyobj option
 
 val id_codec : codec
+
+type rform =
+| F7
+| F9
+| F14
+
+val ref_fields : z list -> (((rform * z) * z) * z list) option
+
+val form_of : z -> z -> rform option
+
+val lzss_unpack : table0 -> n list -> (n list list * n list list) option
+
+val refs_of : token list -> ((z * z) * z) list
